@@ -35,6 +35,9 @@ from typing import Tuple
 def _reverse_sub(y, x):
 	return x - y
 
+def _reverse_mul(y, x):
+	return x * y
+
 def _reverse_truediv(y, x):
 	return x / y
 
@@ -1078,7 +1081,8 @@ class Vector():
 		raise SerifTypeError(f"Unsupported operand type: {type(other).__name__}")
 
 	def __rmul__(self, other):
-		return self.__mul__(other)
+		# other * self: the element is the right operand (its type decides whether that matters)
+		return self._elementwise_operation(other, _reverse_mul, '__rmul__', '*')
 
 	def __rsub__(self, other):
 		return self._elementwise_operation(other, _reverse_sub, '__rsub__', '-')
